@@ -1134,9 +1134,17 @@ class Context:
             except RecursionError:
                 # Host stack exhausted while parsing/compiling deeply nested code
                 raise MemoryLimitError("Maximum call stack size exceeded")
-            except Exception as e:
-                from .errors import JSError
+            except JSError as e:
+                if hasattr(e, "thrown_value"):
+                    # A throw the eval code did not catch is a throw of the
+                    # calling script, with the value that was thrown
+                    from .vm import _ThrowThroughNative
 
+                    raise _ThrowThroughNative(e.thrown_value)
+                # Syntax errors of the eval code and errors raised by
+                # built-ins keep their class (SyntaxError, TypeError...)
+                raise
+            except Exception as e:
                 raise JSError(f"EvalError: {str(e)}")
 
         return eval_fn
